@@ -109,6 +109,10 @@ func (fr *Frame) instr(n *unode, s *State, g *Term, ins ssa.Instruction, rets *[
 		p := val(ins.X)
 		fr.oblige("nil", "", ins.Pos(), g, c.Neq(p, c.Null()), "field address through non-nil pointer")
 		s.regs[ins] = c.RSub(p, ins.Field)
+		if pt, ok := ins.Type().Underlying().(*types.Pointer); ok && !fr.spec {
+			// (not in specification code: its locals are virtual objects that share allocation numbers)
+			x.ptrTagElem(s.regs[ins], pt.Elem())
+		}
 	case *ssa.Index:
 		xv := val(ins.X)
 		iv := fr.toIndex(val(ins.Index), ins.Index.Type())
@@ -130,11 +134,17 @@ func (fr *Frame) instr(n *unode, s *State, g *Term, ins ssa.Instruction, rets *[
 		case *types.Slice:
 			fr.oblige("bounds", "", ins.Pos(), g, c.BVCmp("bvult", iv, c.SlLen(xv)), "slice index in range")
 			s.regs[ins] = x.sliceElemAddr(xv, iv)
+			if !fr.spec {
+				x.ptrTagElem(s.regs[ins], u.Elem())
+			}
 		case *types.Pointer:
 			arr := u.Elem().Underlying().(*types.Array)
 			fr.oblige("nil", "", ins.Pos(), g, c.Neq(xv, c.Null()), "index through non-nil array pointer")
 			fr.oblige("bounds", "", ins.Pos(), g, c.BVCmp("bvult", iv, c.BV(uint64(arr.Len()), 64)), "array index in range")
 			s.regs[ins] = c.RElem(xv, iv)
+			if !fr.spec {
+				x.ptrTagElem(s.regs[ins], arr.Elem())
+			}
 		default:
 			panic("IndexAddr on " + ins.X.Type().String())
 		}
